@@ -48,6 +48,37 @@ def archive_by_index(n_members, index):
     return [dict(alpha[d]) for d in reversed(digits)]
 
 
+# ---- link chains: every member is lexically inside (judged on its own, against an empty destination), but the
+# links compose on disk: 'a -> .', 'd -> a/..' makes d the parent of the destination. Names are distinct.
+CHAIN_NAMES = ['a', 'd', 'd/a', 'a/x']
+CHAIN_KINDS = [('file', None), ('dir', None),
+               ('sym', '.'), ('sym', '..'), ('sym', 'a/..'), ('sym', 'd/..'), ('sym', 'd/a/..')]
+
+
+def n_chain_archives(n_members):
+    n = 1
+    for i in range(n_members):
+        n *= len(CHAIN_NAMES) - i
+    return n * len(CHAIN_KINDS) ** n_members
+
+
+def chain_archive_by_index(n_members, index):
+    """The index-th ordered archive of n_members members with DISTINCT names of the chain alphabet."""
+    perms = list(itertools.permutations(CHAIN_NAMES, n_members))
+    nk = len(CHAIN_KINDS)
+    pi, ki = divmod(index, nk ** n_members)
+    kinds = []
+    for _ in range(n_members):
+        kinds.append(CHAIN_KINDS[ki % nk])
+        ki //= nk
+    return [{'name': nm, 'kind': k, 'link': l} for nm, (k, l) in zip(perms[pi], reversed(kinds))]
+
+
+def chain_archives(n_members):
+    for i in range(n_chain_archives(n_members)):
+        yield chain_archive_by_index(n_members, i)
+
+
 def subst(s, abs_dir, wd=None):
     if s is None:
         return None
@@ -127,7 +158,11 @@ COMBO_PRE = [['data/d:link'], ['data/d:copy'], ['data/ld:link']]
 
 # ------------------------------------------------------------------------------------------------------ manifests
 # 'conf' is the folder into which deployment itself writes the workflow definition after the manifest was applied
-KEYS = ['a', 'a/b', '../x', 'a/../../x', './a', ABS + '/mk', 'conf']
+# 'data' is the folder whose files experimentFromPackage(data=[...]) replaces after the manifest was applied
+KEYS = ['a', 'a/b', '../x', 'a/../../x', './a', ABS + '/mk', 'conf', 'data']
+# every manifest source folder contains symbolic links with these names pointing at victim files outside the
+# instance: the names of the files that deployment / instance creation writes into conf/ and data/ afterwards
+LATER_WRITTEN = ['flowir_package.yaml', 'dsl.yaml', 'flowir_instance.yaml', 'manifest.yaml', 'big.csv']
 METHODS = ['copy', 'link']
 
 
